@@ -517,6 +517,25 @@ func c01registry(c *Check) {
 			}
 		}
 	})
+	// a registry table: constructors looked up by the configured type in a package-level map literal
+	allInstrs(ir, func(in ssa.Instruction) {
+		call, ok := in.(*ssa.Call)
+		if !ok || call.Call.IsInvoke() || call.Call.StaticCallee() != nil {
+			return
+		}
+		ents, fld, idx, ok := globalStructMapLookup(c.P, call.Call.Value)
+		if !ok {
+			return
+		}
+		if _, path := fieldPath(idx); len(path) == 0 || path[len(path)-1] != "Type" {
+			return
+		}
+		for ty, fields := range ents {
+			if f := resolveFuncValue(fields[fld]); f != nil && strings.HasPrefix(funcCanonical(f), modPath+"/route.New") {
+				foundT[ty] = strings.TrimPrefix(funcCanonical(f), modPath+"/route.")
+			}
+		}
+	})
 	for ty, ctor := range wantT {
 		c.Judge(foundT[ty] == ctor, "cfg.InitRoutes type \""+ty+"\" → route."+ctor, c.AtFn(ir), "TOML route type bound to the identically named constructor", fmt.Sprintf("TOML type %q constructs route.%s instead of route.%s", ty, foundT[ty], ctor))
 	}
